@@ -23,7 +23,7 @@ func init() {
 	register(&Rule{ID: "R-VOIDPUSH", Floor: 2, Run: ruleVoidPush,
 		Text: "The result of a called function — host, built-in or user-defined — is pushed as the call's value exactly when its type is not VOID."})
 	register(&Rule{ID: "R-FLAGONLY", Floor: 1, Run: ruleFlagOnly,
-		Text: "The NoOptimize flag decides one thing only: whether the optimizer switch is set; nothing else in Prepare depends on it."})
+		Text: "The NoOptimize flag decides one thing only: whether the optimizer switch is set; nothing else in Prepare depends on it.  The switch starts on and is only ever turned off while the flags are scanned (merged from constants, or from itself and-ed with a test), so one NoOptimize decides wherever it stands among the arguments."})
 	register(&Rule{ID: "R-DRIVER", Floor: 6, Run: ruleDriver,
 		Text: "The command-line driver is a faithful front end: SetContext is never called after Prepare on an evaluator, the -no-optimizer flag reaches Prepare as NoOptimize, the decoded JSON document is what Execute runs against, the report prints Type(), Inspect() and True() of Execute's result, and main installs a deferred recover before dispatching."})
 	register(&Rule{ID: "R-FOLDAGREE", Floor: 6, Run: ruleFoldAgree,
